@@ -175,7 +175,9 @@ Definition metrics_agree (tol : Q) (rate_percent : Q) (disc : bool) (capex opex 
   close_scale tol sc n iNPV &&
   close_scale tol (sc / Qabs capex) (vir iNPV capex) iVIR &&
   close tol (moic iCum capex opex life) iMOIC.
-(* a reported non-zero IRR [percent] zeroes the NPV of the series (numpy convention) *)
+(* a reported non-zero IRR [percent] zeroes the NPV of the series (numpy convention); the residual is measured
+   against the sum of the absolute discounted terms at that rate (near r = -1 the terms are huge) *)
 Definition irr_is_root (tol : Q) (irr_percent : Q) (iTot : list Q) : bool :=
-  let sc := sumQ_red (map Qabs iTot) in
-  Qle_bool (Qabs (npv_red (irr_percent / 100) iTot)) (tol * sc).
+  let r := irr_percent / 100 in
+  let sc := npv_red (Qabs (1 + r) - 1) (map Qabs iTot) in
+  Qle_bool (Qabs (npv_red r iTot)) (tol * sc).
